@@ -84,6 +84,12 @@ def main() -> int:
         t, j = byid[v["id"]]
         accs = sorted({a for g in set(j[2]) - {"save"} for a in cul.get((j[1], g), [])})
         clause = "+".join(sorted(v["failing"]))
+        documented = [a for a in accs if "." in a and not a.startswith("<") and RO.lenient_documented(a)]
+        if accs and len(documented) == len(accs):
+            # every accessor responsible says in its own docstring (in words the fixed pattern did not anticipate) that reading it creates
+            # content: "documented as creating" - the statement's exception
+            rep.note("documented-creating (lenient docstring match): %s changed %s on %s" % (", ".join(accs), v["changed"][:2], v["id"]))
+            continue
         for acc in (accs or ["<not-isolated>"]):
             sig = "%s@%s" % ("ReadLeavesMeaning" if "ReadLeavesMeaning" in v["failing"] else clause, acc)
             if (sig, j[1]) in reported:
